@@ -325,7 +325,8 @@ class DiscreteQuadraticModel:
                     slack_terms.append((sv, 1, ub_c))
 
             elif slack_method == "log10":
-                num_dqm_vars = int(np.ceil(np.log10(slack_upper_bound+1)))
+                # exact number of decimal digits: the float ceil(log10(S + 1)) is one short at S = 10**15 and just above 10**k, k >= 16
+                num_dqm_vars = len(str(slack_upper_bound))
                 for j in range(num_dqm_vars):
                     slack_term = list(range(0, min(slack_upper_bound + 1,
                                                    10 ** (j + 1)), 10 ** j))[1:]
